@@ -65,11 +65,6 @@ def registry_info():
         return {}
 
 
-def count_lines(data: bytes) -> int:
-    text = data.decode("utf-8", errors="replace")
-    return len(re.split(r"\r\n|\r|\n", text))
-
-
 def exact_lines(data: bytes) -> int:
     """Number of lines of a text: pieces between line terminators, an empty piece after the final terminator not counted."""
     parts = re.split(r"\r\n|\r|\n", data.decode("utf-8", errors="replace"))
@@ -113,6 +108,7 @@ def check_report(report: dict, project_root, executed_ids, *, before: dict | Non
     if executed_ids is not None and ids != list(executed_ids):
         problems.append(f"{K_ORDER}: results are {ids} but the executed codemods were {list(executed_ids)}")
     info = dict(registry_info()) if codemod_info is None else dict(codemod_info)
+    cur_len: dict = {}     # path -> number of lines after the codemods seen so far (real runs, `before` given)
     for r in results:
         cid = r.get("codemod")
         for k in ("codemod", "summary", "description", "references"):
@@ -133,16 +129,30 @@ def check_report(report: dict, project_root, executed_ids, *, before: dict | Non
             changes = cs.get("changes") or []
             if not changes:
                 problems.append(f"{K_CHANGESET}: {where}: no change entry")
-            after_n = before_n = None
+            # the line bound, EXACT: a change names a line of the text the codemod read or of the text it produced.
+            # Reports list results in execution order, so with the tree before the run the length of the file as each
+            # codemod found it is tracked through the diffs (real run); in a dry run every codemod sees the original.
+            adata = bdata = None
             if root is not None and check_tree:
                 f = root / path
                 if not f.is_file():
                     problems.append(f"{K_CHANGESET}: {where}: no such file in the project")
                 else:
-                    after_n = count_lines(f.read_bytes())
+                    adata = f.read_bytes()
             if before is not None and path in before:
-                before_n = count_lines(before[path] if isinstance(before[path], bytes) else str(before[path]).encode())
-            bound = max([n for n in (after_n, before_n) if n is not None], default=None)
+                bdata = before[path] if isinstance(before[path], bytes) else str(before[path]).encode()
+            delta = diff_delta(cs.get("diff") or "")
+            if bdata is not None:
+                left_alone = adata is None or adata == bdata
+                pre = exact_lines(bdata) if left_alone else cur_len.get(path, exact_lines(bdata))
+                post = pre + delta
+                if not left_alone:
+                    cur_len[path] = post
+                bound = max(pre, post)
+            elif adata is not None:
+                bound = max(exact_lines(adata), exact_lines(adata) - delta)
+            else:
+                bound = None
             line_cls = K_LINE
             # A manifest changeset comes from the dependency manager: its changes name lines ADDED to the manifest, so they
             # must be lines of the manifest as rewritten: the file after the run, or (file left alone: --dry-run) the
@@ -209,3 +219,52 @@ def selected_ids_from_log(stdout: str, stderr: str = "") -> list[str]:
     text = stdout + "\n" + stderr
     m = re.search(r"^running:\s*\n((?:\s+- .*\n)*)", text, flags=re.M)
     return re.findall(r"^\s+- (\S+)", m.group(1), flags=re.M) if m else []
+
+
+# ------------------------------------------------------------------------------------------------
+# Hook for the harnesses of the OTHER properties (DESIGN §5 C15 "Tie"): every report a check obtains from a real CLI run
+# that exited 0 goes through check_report.
+# ------------------------------------------------------------------------------------------------
+@lru_cache(maxsize=1)
+def _known_c15_classes():
+    from harness import core
+    return {e["class"] for e in core.load_known("C15") if e.get("status") == "known"}
+
+
+def feed_report(ctx, report, project_root, *, rc=0, stdout="", stderr="", before=None, cwd=None, replay=None, check_tree=True,
+                label=""):
+    """Call right after a real CLI run with --output, while the project directory still exists.
+    report: the parsed report (dict), or a path to the report file, or the string "INVALID-JSON".
+    rc: exit status of the run (only runs that return 0 are in C15's quantifier; others are ignored).
+    stdout/stderr: the run's output (result order is compared with the `running codemod` lines when given).
+    before: relpath -> bytes|str of the project before the run (exact line bounds); check_tree=False when the project
+    directory is already gone.  replay: what the caller would put in a replay file (project, argv).
+    A problem whose class is a listed C15 known finding is only counted; any other is reported through ctx.violation with
+    its C15 class (a concrete failing input of the implementation, found by this check's own run).  Returns the problems."""
+    if rc != 0:
+        return []
+    ctx.count("c15_feed:reports")
+    if isinstance(report, (str, os.PathLike)) and report != "INVALID-JSON":
+        try:
+            report = json.loads(Path(report).read_text(encoding="utf-8"))
+        except FileNotFoundError:
+            return []          # no --output given / nothing written: not C15's business (C20's)
+        except Exception:
+            report = "INVALID-JSON"
+    if report == "INVALID-JSON" or not isinstance(report, dict):
+        problems = [f"{K_SCHEMA}: the report file is not a JSON object"]
+    else:
+        executed = executed_ids_from_log(stdout, stderr) if (stdout or stderr) else None
+        if executed is not None and not executed:
+            executed = selected_ids_from_log(stdout, stderr) or None
+        problems = check_report(report, project_root, executed, before=before, cwd=cwd, check_tree=check_tree)
+    known = _known_c15_classes()
+    for p in problems:
+        cls = p.split(":", 1)[0]
+        if cls in known:
+            ctx.count("c15_feed:known:" + cls)
+            continue
+        body = dict(replay or {})
+        body.update({"c15_problem": p, "label": label, "expected": "the report of this run satisfies C15 (harness/c15_checker.check_report)"})
+        ctx.violation(cls, f"C15 on a report produced by this check{(' (' + label + ')') if label else ''}: {p}", body)
+    return problems
